@@ -7,6 +7,12 @@ import FontVerif.Lemmas.TentLemmas
 namespace FontVerif.Tent
 open FontVerif
 
+/-- the row the reader decodes for `inner` in subtable `st` (`ItemVariationData::delta_set` on
+the `delta_sets` array of `row_len × item_count` bytes). -/
+def decodedRow (st : SubTable) (inner : Nat) : List Int :=
+  deltaSet st.wordDeltaCount st.regionIndexes.length
+    (st.data.take (deltaRowLen st.wordDeltaCount st.regionIndexes.length * st.itemCount)) inner
+
 /-- the specified weighted sum: `Σ_i delta_i × scalar(region(ri_i), coords)` (scalar as 16.16 bits);
 a region index outside the list contributes nothing (the loop errors out in that case). -/
 def specSum (regions : List (List (Int × Int × Int))) (coords : List Int) :
